@@ -73,11 +73,27 @@ def _ctx_factory(u, p, **kw):
     return secctx.ScriptedContext([b"CLIENT-TOKEN-1", b"CLIENT-TOKEN-2"], 16)
 
 
+_form = [0]
+
+
 def drive_sync(kind: str):
     from dpapi_ng._rpc import create_rpc_connection
 
     auth = kind in ("bind_ack_auth", "alter_resp")
     rpcc = create_rpc_connection("dc", 135, username="u" if auth else None, password="p" if auth else None, auth_protocol="ntlm" if auth else None)
+    if _form[0] % 2:
+        # every other execution uses the client as a context manager, the way the library's own GetKey path does: whatever leaves the
+        # with block (a PDU or an error) is what the caller sees
+        sentinel = object()
+        out: t.Any = sentinel
+        with rpcc:
+            if kind.startswith("resp") or kind == "fault":
+                out = rpcc.request(0, 3, b"stub-data")
+            else:
+                out = rpcc.bind(contexts=_contexts())
+        if out is sentinel:
+            return "WITH-BLOCK-LEFT-SILENTLY: an error raised inside it was swallowed by __exit__"
+        return out
     try:
         if kind.startswith("resp") or kind == "fault":
             return rpcc.request(0, 3, b"stub-data")
@@ -106,6 +122,8 @@ def execute(api: str, kind: str, chunks: t.List[t.Optional[bytes]], budgeted: bo
     """-> (status, value, eof_reads)   status in ok|exc|spin|blocks|budget|deadlock"""
     replies, target = canned(kind)
     peer = Peer(replies, target, chunks)
+    # which calling form the sync driver uses is a function of the schedule (so that a replay takes the same one): odd chunk counts -> `with`
+    _form[0] = len(chunks) + sum(len(c) for c in chunks if isinstance(c, (bytes, bytearray))) % 2
     with transport.network(peer, defer=(api == "async")) as hub, secctx.scripted_client(_ctx_factory):
         try:
             if api == "sync":
